@@ -338,6 +338,9 @@ func runMini(ctx *common.Ctx, auxDriver string) {
 		"random programs of the proved fragment x random inputs: unoptimised real bytecode (gojq.VerifOptMask = all ones) = mini compiler output modulo renumbering, "+
 			"and real outputs = mini VM outputs; distinct = distinct (code, outcome) answers")
 	n := ctx.N(3000, 200000)
+	if v, err := strconv.Atoi(common.Getenv("C01AUX_MINI_N", "")); err == nil {
+		n = v // development aid: a slow (interpreted) driver
+	}
 	var lines, impl, labels []string
 	seen := map[string]bool{}
 	for len(lines) < n {
